@@ -302,7 +302,16 @@ def run_case(ctx, st, pt, p, req):
     c = {'pep': p, 'req': req, 'text': text, 'loss_rules': loss_rules_of(req), 'phase': 'fragment', 'frags': None}
     st.case = c
     try:
-        frags = pt.fragment(text, monoisotopic=req['monoisotopic'], **call_kwargs(req))
+        kw0 = call_kwargs(req)
+        if ctx.rng.random() < 0.25:
+            # the documented positional order (sequence, ion_types, charges, monoisotopic, isotopes, ...) and flags given
+            # as 1 instead of True (a config file, a table column) ask for the same thing
+            it, ch, iso = kw0.pop('ion_types'), kw0.pop('charges'), kw0.pop('isotopes')
+            kw0['water_loss'] = 1 if kw0['water_loss'] else kw0['water_loss']
+            kw0['ammonia_loss'] = 1 if kw0['ammonia_loss'] else kw0['ammonia_loss']
+            frags = pt.fragment(text, it, ch, req['monoisotopic'], iso, **kw0)
+        else:
+            frags = pt.fragment(text, monoisotopic=req['monoisotopic'], **kw0)
     except Exception as ex:
         ctx.decided()
         ctx.violation('fragment-raises', {'text': text, 'request': req, 'exception': f'{type(ex).__name__}: {ex}'[:300]})
